@@ -1,5 +1,5 @@
 SPECIFICATION Spec
-CONSTANTS Rich = FALSE
+CONSTANTS Level = 1
  MutDepth = 1
 INVARIANT SchemaTyped
 INVARIANT RefSound
